@@ -190,3 +190,17 @@ class SlowResult:
 
 def slow_result_target(flag_path=None, secs=7.0):
     return SlowResult(flag_path, secs)
+
+
+# ---- C04: an outcome that cannot be rebuilt on the parent side ----------------------------------------------------------
+class Unrebuildable(Exception):
+    """unpickling calls Unrebuildable('...') - one argument short: TypeError wherever the outcome is rebuilt"""
+
+    def __init__(self, a, b):
+        super().__init__('cannot be rebuilt from its args')
+
+
+def unreb_raise(flag_path=None, delay=0.25):
+    _mark(flag_path)
+    time.sleep(delay)
+    raise Unrebuildable(1, 2)
